@@ -63,10 +63,10 @@ def presentSrc (fmt : String) (shape : Nat) (dflt : Int) (d : Nat) (f : T (d + 1
   else (presentPosT dflt d f).map (fun e => (e.1, (Int.ofNat e.2.1, e.2.2)))
 
 /-- nested populate with the action table as loop body — an instance of `Ft.populate` at every level -/
-def popTree (dflt : Int) (acts : Acts) (fmt : String := "C") (shape : Nat := 0) : (d : Nat) → List Int → T (d + 1) → T (d + 1) → T (d + 1) × List LogRow
+def popTree (dflt : Int) (acts : Acts) (fmts : List String := []) (shapes : List Nat := []) : (d : Nat) → List Int → T (d + 1) → T (d + 1) → T (d + 1) × List LogRow
   | 0, pre, z, a =>
     let r := populate dflt 0 (fun c cur (ap : Int × T 0) => (leafAct dflt acts (pre ++ [c]) (show Int from cur) (show Int from ap.2) : Int))
-      z (presentSrc (if pre.isEmpty then fmt else "C") shape dflt 0 a)
+      z (presentSrc (fmts.getD pre.length "C") (shapes.getD pre.length 0) dflt 0 a)
     (r.1, r.2.map (fun y => { point := pre ++ [y.1], cur := jInt (show Int from y.2.1), apos := y.2.2.1 }))
   | d + 1, pre, z, a =>
     let recurse (c : Int) : Bool := match acts.get (pre ++ [c]) with | some .skip => false | some (.touch _) => false | _ => true
@@ -74,23 +74,23 @@ def popTree (dflt : Int) (acts : Acts) (fmt : String := "C") (shape : Nat := 0) 
         match acts.get (pre ++ [c]) with
         | some .skip => cur
         | some (.touch c') => insertIfMissing (defaultTree dflt d) (show List (Int × T d) from cur) c'
-        | _ => (popTree dflt acts "C" 0 d (pre ++ [c]) cur ap.2).1) z
-        (presentSrc (if pre.isEmpty then fmt else "C") shape dflt (d + 1) a)
+        | _ => (popTree dflt acts fmts shapes d (pre ++ [c]) cur ap.2).1) z
+        (presentSrc (fmts.getD pre.length "C") (shapes.getD pre.length 0) dflt (d + 1) a)
     (r.1, r.2.flatMap (fun y =>
       { point := pre ++ [y.1], cur := treeToJson (d + 1) y.2.1, apos := y.2.2.1 } ::
-      (if recurse y.1 then (popTree dflt acts "C" 0 d (pre ++ [y.1]) y.2.1 y.2.2.2).2 else [])))
+      (if recurse y.1 then (popTree dflt acts fmts shapes d (pre ++ [y.1]) y.2.1 y.2.2.2).2 else [])))
 
 /-- independent spec: the leaf points the nested loops offer (in order), from the source alone -/
-def presentTop (fmt : String) (shape : Nat) (dflt : Int) (d : Nat) (pre : List Int) (a : T (d + 1)) : Fib Int (T d) :=
-  (presentSrc (if pre.isEmpty then fmt else "C") shape dflt d a).map (fun e => (e.1, e.2.2))
+def presentTop (fmts : List String) (shapes : List Nat) (dflt : Int) (d : Nat) (pre : List Int) (a : T (d + 1)) : Fib Int (T d) :=
+  (presentSrc (fmts.getD pre.length "C") (shapes.getD pre.length 0) dflt d a).map (fun e => (e.1, e.2.2))
 
-def offered (dflt : Int) (acts : Acts) (fmt : String := "C") (shape : Nat := 0) : (d : Nat) → List Int → T (d + 1) → List (List Int × Int)
+def offered (dflt : Int) (acts : Acts) (fmt : List String := []) (shape : List Nat := []) : (d : Nat) → List Int → T (d + 1) → List (List Int × Int)
   | 0, pre, a => (presentTop fmt shape dflt 0 pre a).map (fun e => (pre ++ [e.1], (show Int from e.2)))
   | d + 1, pre, a => (presentTop fmt shape dflt (d + 1) pre a).flatMap (fun e =>
       match acts.get (pre ++ [e.1]) with
       | some .skip => []
       | some (.touch _) => []
-      | _ => offered dflt acts "C" 0 d (pre ++ [e.1]) e.2)
+      | _ => offered dflt acts fmt shape d (pre ++ [e.1]) e.2)
 
 /-- paths (of every length ≥ 1) stored in a tree -/
 def paths : (d : Nat) → T d → List (List Int)
@@ -98,14 +98,14 @@ def paths : (d : Nat) → T d → List (List Int)
   | d + 1, f => (show List (Int × T d) from f).flatMap (fun e => [e.1] :: (paths d e.2).map (e.1 :: ·))
 
 /-- every point the nested loops offer (interior and leaf), from the source and the action table alone -/
-def offeredAll (dflt : Int) (acts : Acts) (fmt : String := "C") (shape : Nat := 0) : (d : Nat) → List Int → T (d + 1) → List (List Int)
+def offeredAll (dflt : Int) (acts : Acts) (fmt : List String := []) (shape : List Nat := []) : (d : Nat) → List Int → T (d + 1) → List (List Int)
   | 0, pre, a => (presentTop fmt shape dflt 0 pre a).map (fun e => pre ++ [e.1])
   | d + 1, pre, a => (presentTop fmt shape dflt (d + 1) pre a).flatMap (fun e =>
       (pre ++ [e.1]) ::
       (match acts.get (pre ++ [e.1]) with
        | some .skip => []
        | some (.touch _) => []
-       | _ => offeredAll dflt acts "C" 0 d (pre ++ [e.1]) e.2))
+       | _ => offeredAll dflt acts fmt shape d (pre ++ [e.1]) e.2))
 
 /-- is the payload stored at `p` a residue (a default leaf / a fiber without elements)?  `none` if
     nothing is stored at `p` -/
@@ -125,7 +125,7 @@ def residueAt (dflt : Int) : (d : Nat) → T d → List Int → Option Bool
 /-- residue test: no offered point that was not stored before the loop is left holding a default
     leaf / an element-less sub-fiber (elements the *body* inserts below an offered sub-fiber are the
     body's business) -/
-def residueFree (dflt : Int) (acts : Acts) (fmt : String) (shape : Nat) (d : Nat) (z a out : T (d + 1)) : Bool :=
+def residueFree (dflt : Int) (acts : Acts) (fmt : List String) (shape : List Nat) (d : Nat) (z a out : T (d + 1)) : Bool :=
   let before := paths (d + 1) z
   (offeredAll dflt acts fmt shape d [] a).all (fun p =>
     -- an offered *leaf* coordinate left at the default leaves no element, whether or not it existed;
@@ -142,8 +142,15 @@ def handleC05 (j : Json) : Except String Verdict := do
   let impl ← field j "impl"
   let zi ← fTree impl "z" (d + 1)
   let yi ← fArr impl "yields"
-  let fmt := fStrD j "fmtA" "C"
-  let shape := (fNat j "shapeA").toOption.getD 0
+  -- per-rank formats / extents of the source (top rank first); a single string / number means the top rank only
+  let fmt : List String := match j.getObjVal? "fmtA" with
+    | .ok (Json.str s) => [s]
+    | .ok (Json.arr a) => a.toList.map (fun x => x.getStr?.toOption.getD "C")
+    | _ => []
+  let shape : List Nat := match j.getObjVal? "shapeA" with
+    | .ok (Json.arr a) => a.toList.map (fun x => x.getNat?.toOption.getD 0)
+    | .ok x => [x.getNat?.toOption.getD 0]
+    | _ => []
   let (mz, mlog) := popTree dflt acts fmt shape d [] z a
   -- agreement: final destination and the yielded sequence
   let mlogJ := mlog.map (fun r => jList [jInts r.point, r.cur, jInt r.apos])
@@ -184,7 +191,8 @@ def handleC05 (j : Json) : Except String Verdict := do
     (if acts.any (fun e => match e.2 with | .reset => true | _ => false) then ["reset"] else []) ++
     (if acts.any (fun e => match e.2 with | .skip => true | _ => false) then ["skip"] else []) ++
     (if acts.any (fun e => match e.2 with | .touch _ => true | _ => false) then ["touch"] else []) ++
-    (if fmt == "U" then ["srcU"] else [])
+    (if fmt.head? == some "U" then ["srcU"] else []) ++
+    (if (fmt.drop 1).contains "U" then ["srcU-below-top"] else [])
   pure { agree := agreeZ && agreeY, spec := specContent && specWf && specRes && specY,
          model := treeToJson (d + 1) mz, tags, why }
 
